@@ -1,10 +1,278 @@
-(* B01 — auxiliary check: the SERVER side of the checksum database (sumdb.Server over
-   sumdb.TestServer) as modelled in Client/Server.v.  Property theorems only. *)
-From Verif.Base Require Import Bytes.
+(* B01 — auxiliary check: the SERVER side of the checksum database, sumdb.Server.ServeHTTP
+   (server.go) over sumdb.TestServer (test.go), as modelled in Client/Server.v and tied to the
+   implementation by the correspondence run of harness/props/b01.go (httptest, no network).
+   Property theorems only; each is closed by [exact] of a lemma proved in Client/ServerProofs*.v.
+
+   Reading guide
+     serve ops st path         Server.ServeHTTP on r.URL.Path over abstract ServerOps with state st
+     serve_test lh nh gosum sid Sg sgn st path    the same over TestServer (lh/nh = RecordHash/NodeHash,
+                               gosum = the callback of NewTestServer, Sg/sgn = its note.Signer)
+     HOk ct body | HStatus c | HPanic    200 + content type + body | an error status | the handler panicked
+     HInv st                   the stored hashes of the TestServer are those of its records
+     SInv st                   HInv and: every entry of the lookup table points to the record gosum gave
+     tree_tile h N t           t is a tile (height h) of the tree of size N (NewTilesProofs.v)
+     honest_tile T t           the true content of tile t for the range-hash function T (TileProofsHonest.v)
+     range_hash lh nh recs     RFC 6962 hash of a range of the records (ProofsStore.v); mth = MTH (Spec6962.v) *)
+From Coq Require Import List ZArith.
+From Verif.Base Require Import Bytes Sha256 Strconv.
 From Verif.Gen Require Import GenRegex.
-From Verif.Client Require Import Server.
+From Verif.Tlog Require Import Index Tree Codec Tile TileReader Spec6962 ProofsStore ProofsCodec Sha.
+From Verif.Tlog Require Import TileSpec TileProofsHonest TileProofsHonestRun TileProofsInst NewTilesProofs.
+From Verif.Note Require Import Note.
+From Verif.Module Require Import Escape.
+From Verif.Client Require Import Seq SeqProofsSafe SeqProofsHonest.
+From Verif.Client Require Import Server ServerProofs ServerProofsLookup ServerProofsWorld ServerProofsSha.
+
+(* ---- 0. the regular expression the hand recogniser mod_ver_match implements ------------------- *)
 
 Theorem B01_modVerRE_pinned :
   sumdb_modVerRE = B "^[^@]+@v[0-9]+\.[0-9]+\.[0-9]+(-[^@]*)?(\+incompatible)?$".
 Proof. exact modVerRE_pinned. Qed.
 Print Assumptions B01_modVerRE_pinned.
+
+(* ---- 1. every path gets a response: ServeHTTP itself never panics --------------------------------- *)
+
+Theorem B01_serve_total :
+  forall (St : Type) (ops : server_ops St) (st : St) (path : str),
+    (forall st, op_signed ops st <> OPanic) ->
+    (forall st id n, op_read_records ops st id n <> OPanic) ->
+    (forall st p v, fst (op_lookup ops st p v) <> OPanic) ->
+    (forall st t, op_read_tile_data ops st t <> OPanic) ->
+    fst (serve ops st path) <> HPanic.
+Proof. intros St ops st path H1 H2 H3 H4. apply serve_total. repeat split; assumption. Qed.
+Print Assumptions B01_serve_total.
+
+(* ---- 2. the TestServer invariant ---------------------------------------------------------------------- *)
+
+(* kept by every request; the log only grows, by at most one record per request *)
+Theorem B01_serve_test_inv :
+  forall leaf_hash node_hash gosum sid Sg sgn st path,
+    SInv leaf_hash node_hash gosum st -> zlen (ts_records st) + 1 < 2 ^ 62 ->
+    SInv leaf_hash node_hash gosum (snd (serve_test leaf_hash node_hash gosum sid Sg sgn st path)) /\
+    (snd (serve_test leaf_hash node_hash gosum sid Sg sgn st path) = st \/
+     exists data, ts_records (snd (serve_test leaf_hash node_hash gosum sid Sg sgn st path)) = ts_records st ++ [data]).
+Proof. exact serve_test_inv. Qed.
+Print Assumptions B01_serve_test_inv.
+
+(* hence it holds in every state reachable from NewTestServer by serving requests *)
+Theorem B01_reachable_inv :
+  forall leaf_hash node_hash gosum sid Sg sgn st,
+    reachable leaf_hash node_hash gosum sid Sg sgn st -> zlen (ts_records st) + 1 < 2 ^ 62 ->
+    SInv leaf_hash node_hash gosum st.
+Proof. exact reachable_inv. Qed.
+Print Assumptions B01_reachable_inv.
+
+(* ---- 3. tiles ------------------------------------------------------------------------------------------ *)
+
+(* GET /<Tile.Path()> of any tile of the current tree returns exactly ReadTileData over the store of
+   the current records, which is the honest tile content *)
+Theorem B01_serve_tile_honest :
+  forall leaf_hash node_hash gosum sid Sg sgn st h t,
+    HInv leaf_hash node_hash st -> zlen (ts_records st) < 2 ^ 62 -> 1 <= h <= 30 ->
+    tree_tile h (zlen (ts_records st)) t ->
+    serve_test leaf_hash node_hash gosum sid Sg sgn st (47 :: tile_path t)
+    = (HOk COctet (honest_tile (range_hash leaf_hash node_hash (ts_records st)) t), st) /\
+    read_tile_data t (reader_of (store_of leaf_hash node_hash (ts_records st)))
+    = TOk (honest_tile (range_hash leaf_hash node_hash (ts_records st)) t).
+Proof. exact serve_tile_honest. Qed.
+Print Assumptions B01_serve_tile_honest.
+
+(* the same for every width the tree can supply (tiles planned for smaller signed sizes) *)
+Theorem B01_serve_tile_servable :
+  forall leaf_hash node_hash gosum sid Sg sgn st h t,
+    HInv leaf_hash node_hash st -> zlen (ts_records st) < 2 ^ 62 -> 1 <= h <= 30 ->
+    tH t = h -> 0 <= tL t -> 0 <= tN t -> 1 <= tW t <= 2 ^ h ->
+    tN t * 2 ^ h + tW t <= zlen (ts_records st) / 2 ^ (h * tL t) ->
+    serve_test leaf_hash node_hash gosum sid Sg sgn st (47 :: tile_path t)
+    = (HOk COctet (honest_tile (range_hash leaf_hash node_hash (ts_records st)) t), st).
+Proof.
+  intros lh nh gosum sid Sg sgn st h t HI Hlen Hh A B C D E.
+  apply (serve_tile_servable lh nh gosum sid Sg sgn st h t HI Hlen Hh). repeat split; assumption || apply D.
+Qed.
+Print Assumptions B01_serve_tile_servable.
+
+(* with SHA-256: the server is a tile publisher for which the C10 tile hash reader succeeds with the
+   true hashes, for every index of the current tree *)
+Theorem B01_server_readers_succeed :
+  forall gosum sid Sg sgn st h ix,
+    HInv record_hash node_hash_sha st -> 0 < zlen (ts_records st) < 2 ^ 62 -> 1 <= h <= 30 ->
+    Forall (fun x => 0 <= x < stored_hash_index 0 (zlen (ts_records st))) ix ->
+    exists sv,
+      tile_read_hashes node_hash_sha
+        (zlen (ts_records st), mth node_hash_sha (map record_hash (ts_records st))) h ix
+        (server_tile_reader gosum sid Sg sgn st)
+      = (TOk (map (true_hash (sha_range (ts_records st))) ix), Some sv).
+Proof. exact server_readers_succeed. Qed.
+Print Assumptions B01_server_readers_succeed.
+
+(* data tiles: the record texts, each followed by a newline *)
+Theorem B01_serve_data_tile_honest :
+  forall leaf_hash node_hash gosum sid Sg sgn st h n w,
+    1 <= h <= 30 -> 0 <= n -> 1 <= w <= 2 ^ h -> n * 2 ^ h + w <= zlen (ts_records st) ->
+    zlen (ts_records st) < 2 ^ 62 ->
+    Forall (fun t => is_valid_record_text t = true) (slice (ts_records st) (n * 2 ^ h) w) ->
+    serve_test leaf_hash node_hash gosum sid Sg sgn st (47 :: tile_path (mkTile h (-1) n w))
+    = (HOk CText (concat (map (fun t => t ++ [10]) (slice (ts_records st) (n * 2 ^ h) w))), st).
+Proof. exact serve_data_tile_honest. Qed.
+Print Assumptions B01_serve_data_tile_honest.
+
+(* FINDING (test server): a well-formed hash tile reaching outside the stored hashes makes
+   TestServer.ReadTileData panic (testHashes.ReadHashes indexes its slice unchecked) *)
+Theorem B01_serve_tile_out_of_range_panics :
+  forall leaf_hash node_hash gosum sid Sg sgn st t,
+    valid_tile t -> 0 <= tL t ->
+    read_tile_data t (reader_of (ts_hashes st)) = TErr TEReader ->
+    serve_test leaf_hash node_hash gosum sid Sg sgn st (47 :: tile_path t) = (HPanic, st).
+Proof. exact serve_tile_out_of_range_panics. Qed.
+Print Assumptions B01_serve_tile_out_of_range_panics.
+
+Example B01_panic_example :
+  serve_test record_hash node_hash_sha (fun _ _ => ONotExist) unit (fun _ _ => None)
+             {| sg_name := B "s"; sg_hash := 1; sg_id := tt |} tstate0 (B "/tile/8/0/000")
+  = (HPanic, tstate0).
+Proof. vm_compute. reflexivity. Qed.
+
+(* ---- 4. /latest and /lookup ------------------------------------------------------------------------------ *)
+
+(* hypotheses on hashes and on the server's key pair, shared by the theorems below *)
+Definition hashes_ok (leaf_hash : str -> hash) (node_hash : hash -> hash -> hash) : Prop :=
+  (forall r, is_hash (leaf_hash r)) /\ (forall a b, is_hash (node_hash a b)).
+
+Definition keypair_ok (sid : Type) (Sg : sid -> str -> option str) (sgn : signer sid)
+           (vid : Type) (V : vid -> str -> str -> bool) (vs : verifiers vid) : Prop :=
+  is_valid_name (sg_name sgn) = true /\ Forall (fun b => 32 <= b) (sg_name sgn) /\ 0 <= sg_hash sgn < 2 ^ 32 /\
+  (forall text, exists sig, Sg (sg_id sgn) text = Some sig /\ sig <> [] /\ Forall (fun b => 0 <= b < 256) sig) /\
+  (forall k l v, In (k, l) vs -> In v l -> (v_name v, v_hash v) = k) /\
+  (exists ver, Note.lookup vid vs (sg_name sgn) (sg_hash sgn) = LUnique ver /\
+               forall text sig, Sg (sg_id sgn) text = Some sig -> V (v_id ver) text sig = true).
+
+(* GET /latest: a note that opens under the client's verifiers to FormatTree(size, MTH of the records),
+   which parses back to that tree *)
+Theorem B01_serve_latest_honest :
+  forall leaf_hash node_hash gosum sid Sg sgn vid V vs st,
+    hashes_ok leaf_hash node_hash -> keypair_ok sid Sg sgn vid V vs ->
+    HInv leaf_hash node_hash st -> zlen (ts_records st) < 2 ^ 62 ->
+    exists msg nt,
+      serve_test leaf_hash node_hash gosum sid Sg sgn st (B "/latest") = (HOk CText msg, st) /\
+      Note.open vid V msg vs = Note.Ok nt /\
+      n_text nt = format_tree (Tree (zlen (ts_records st)) (mth node_hash (map leaf_hash (ts_records st)))) /\
+      parse_tree (n_text nt) = Index.Ok (Tree (zlen (ts_records st)) (mth node_hash (map leaf_hash (ts_records st)))).
+Proof.
+  intros lh nh gosum sid Sg sgn vid V vs st [Hl Hn] (K1 & K2 & K3 & K4 & K5 & K6) HI Hlen.
+  destruct (serve_latest_honest lh nh gosum sid Sg sgn vid V vs Hl Hn K1 K2 K3 K4 K5 K6 st HI Hlen)
+    as (msg & E & nt & H1 & H2 & H3).
+  exists msg, nt. auto.
+Qed.
+Print Assumptions B01_serve_latest_honest.
+
+(* GET /lookup/EP@EV for a module version M@V that gosum knows (valid record text): the body is
+   FormatRecord(id, text) ++ signed note; ParseRecord gives (id, text, note); text is gosum's data for M@V;
+   the note opens to the tree head (size, MTH) of the records AFTER the request, which include the
+   record (id < size, records[id] = text); the log grew by this record or not at all *)
+Theorem B01_serve_lookup_honest :
+  forall leaf_hash node_hash gosum sid Sg sgn vid V vs st ep ev M Vv text,
+    hashes_ok leaf_hash node_hash -> keypair_ok sid Sg sgn vid V vs ->
+    SInv leaf_hash node_hash gosum st -> zlen (ts_records st) + 1 < 2 ^ 62 ->
+    ~ In 64 ep -> mod_ver_match (ep ++ 64 :: ev) = true ->
+    unescape_path ep = EOk M -> unescape_version ev = EOk Vv ->
+    gosum M Vv = OOk text -> is_valid_record_text text = true ->
+    exists id st' signed nt,
+      serve_test leaf_hash node_hash gosum sid Sg sgn st (B "/lookup/" ++ ep ++ 64 :: ev)
+      = (HOk CText (format_int id ++ [10] ++ text ++ [10] ++ signed), st') /\
+      SInv leaf_hash node_hash gosum st' /\
+      (st' = st \/ ts_records st' = ts_records st ++ [text]) /\
+      parse_record (format_int id ++ [10] ++ text ++ [10] ++ signed) = Index.Ok (id, text, signed) /\
+      0 <= id < zlen (ts_records st') /\ nth_error (ts_records st') (Z.to_nat id) = Some text /\
+      Note.open vid V signed vs = Note.Ok nt /\
+      parse_tree (n_text nt) = Index.Ok (Tree (zlen (ts_records st')) (mth node_hash (map leaf_hash (ts_records st')))).
+Proof.
+  intros lh nh gosum sid Sg sgn vid V vs st ep ev M Vv text [Hl Hn] (K1 & K2 & K3 & K4 & K5 & K6)
+         HI Hlen Hep Hm Hup Huv Hg Hvalid.
+  destruct (serve_lookup_honest lh nh gosum sid Sg sgn vid V vs Hl Hn K1 K2 K3 K4 K5 K6
+              st ep ev M Vv text HI Hlen Hep Hm Hup Huv Hg Hvalid)
+    as (id & st' & signed & E & HI' & Hst & Hp & Hid & Hnth & nt & H1 & _ & H3).
+  exists id, st', signed, nt. repeat (split; [assumption|]). exact H3.
+Qed.
+Print Assumptions B01_serve_lookup_honest.
+
+(* ---- 5. composition with the sequential client model ------------------------------------------------------ *)
+
+(* the world whose remote is the modelled server (with a gosum backend that knows no further
+   modules, so that it answers from the fixed log of st) is an honest world of SeqProofsHonest.v *)
+Theorem B01_frozen_world_honest :
+  forall sha leaf_hash node_hash gosum sid Sg sgn V vs name st cfg h,
+    hashes_ok leaf_hash node_hash -> keypair_ok sid Sg sgn str V vs ->
+    SInv leaf_hash node_hash gosum st -> 0 < zlen (ts_records st) < 2 ^ 62 -> 1 <= h <= 30 ->
+    (exists cm, assoc (latest_file name) cfg = Some cm /\
+                honest_msg V (range_hash leaf_hash node_hash (ts_records st)) (zlen (ts_records st)) vs cm) ->
+    (exists k hash key, assoc (B "key") cfg = Some k /\
+       parse_verifier_key sha (trim_space k) = KOk (name, hash, key) /\
+       verifier_list str [ {| v_name := name; v_hash := hash; v_id := key |} ] = vs) ->
+    HonestWorld sha leaf_hash V (range_hash leaf_hash node_hash (ts_records st)) (zlen (ts_records st)) h vs name
+                (frozen_world leaf_hash node_hash sid Sg sgn st cfg).
+Proof.
+  intros sha lh nh gosum sid Sg sgn V vs name st cfg h [Hl Hn] (K1 & K2 & K3 & K4 & K5 & K6).
+  exact (frozen_world_honest sha lh nh gosum sid Sg sgn V vs name Hl Hn K1 K2 K3 K4 K5 K6 st cfg h).
+Qed.
+Print Assumptions B01_frozen_world_honest.
+
+(* END TO END: Client.Lookup (Client/Seq.v) against Server.ServeHTTP over TestServer (Client/Server.v),
+   with module.EscapePath/EscapeVersion as the client's escaping: never a security error; a lookup
+   that is not memoised yields the go.sum lines of an honest record or a remote error; and when the
+   server has the module version recorded (valid text, version accepted by modVerRE) it yields the lines *)
+Theorem B01_client_over_server :
+  forall sha leaf_hash node_hash gosum sid Sg sgn V vs name st cfg h skip c path vers r evs w' c',
+    hashes_ok leaf_hash node_hash -> keypair_ok sid Sg sgn str V vs ->
+    SInv leaf_hash node_hash gosum st -> 0 < zlen (ts_records st) < 2 ^ 62 -> 1 <= h <= 30 ->
+    (exists cm, assoc (latest_file name) cfg = Some cm /\
+                honest_msg V (range_hash leaf_hash node_hash (ts_records st)) (zlen (ts_records st)) vs cm) ->
+    (exists k hash key, assoc (B "key") cfg = Some k /\
+       parse_verifier_key sha (trim_space k) = KOk (name, hash, key) /\
+       verifier_list str [ {| v_name := name; v_hash := hash; v_id := key |} ] = vs) ->
+    let T := range_hash leaf_hash node_hash (ts_records st) in
+    let N := zlen (ts_records st) in
+    let esc_p := fun p => match escape_path p with EOk e => Some e | EErr _ => None end in
+    let esc_v := fun v => match escape_version v with EOk e => Some e | EErr _ => None end in
+    GoodClient leaf_hash V T N h vs name c ->
+    Seq.lookup sha leaf_hash node_hash V esc_p esc_v skip
+               (frozen_world leaf_hash node_hash sid Sg sgn st cfg) c path vers = (r, evs, w', c') ->
+    r <> LErr ESecurity /\ Forall nosec evs /\
+    HonestWorld sha leaf_hash V T N h vs name w' /\ GoodClient leaf_hash V T N h vs name c' /\
+    forall ep ev, skip path = false -> escape_path path = EOk ep ->
+      escape_version (trim_suffix vers go_mod_suffix) = EOk ev ->
+      (c_init c = None \/ rec_find (name ++ B "/lookup/" ++ ep ++ [64] ++ ev) (c_records c) = None) ->
+      ((exists data, r = LOk (result_lines path vers data) /\ honest_record leaf_hash V T N vs data) \/
+       r = LErr ERemote) /\
+      (forall id text, mod_ver_match (ep ++ 64 :: ev) = true ->
+         find_key (version_string path (trim_suffix vers go_mod_suffix)) (ts_lookup st) = Some id ->
+         nth_error (ts_records st) (Z.to_nat id) = Some text -> is_valid_record_text text = true ->
+         exists data, r = LOk (result_lines path vers data) /\ honest_record leaf_hash V T N vs data).
+Proof.
+  intros sha lh nh gosum sid Sg sgn V vs name st cfg h skip c path vers r evs w' c' [Hl Hn] (K1 & K2 & K3 & K4 & K5 & K6).
+  exact (client_over_server sha lh nh gosum sid Sg sgn V vs name Hl Hn K1 K2 K3 K4 K5 K6 st cfg h skip c path vers r evs w' c').
+Qed.
+Print Assumptions B01_client_over_server.
+
+(* ---- 6. the hypotheses are satisfiable ---------------------------------------------------------------------- *)
+
+(* SHA-256 record and node hashes *)
+Example B01_hashes_ok_sha256 : hashes_ok record_hash node_hash_sha.
+Proof. split; [exact record_hash_is_hash | exact node_hash_sha_is_hash]. Qed.
+
+(* a (toy) key pair: one verifier registered under the signer's name and key hash, accepting its
+   signatures *)
+Example B01_keypair_ok_example :
+  keypair_ok unit (fun _ _ => Some [1]) {| sg_name := B "s"; sg_hash := 7; sg_id := tt |}
+             str (fun _ _ sig => str_eqb sig [1])
+             (verifier_list str [ {| v_name := B "s"; v_hash := 7; v_id := [] |} ]).
+Proof.
+  unfold keypair_ok. cbn [sg_name sg_hash sg_id].
+  split; [vm_compute; reflexivity|].
+  split; [repeat constructor; vm_compute; discriminate|].
+  split; [lia|].
+  split; [intros text; exists [1]; split; [reflexivity|]; split; [discriminate|]; repeat constructor; lia|].
+  split.
+  - intros k l v Hin Hv. vm_compute in Hin. destruct Hin as [[= <- <-]|[]].
+    destruct Hv as [<-|[]]. reflexivity.
+  - eexists. split; [vm_compute; reflexivity|]. intros text sig [= <-]. reflexivity.
+Qed.
